@@ -103,6 +103,17 @@ def execute_agg(L, by, hseed=None):
     return rec
 
 
+def execute_split(L, by):
+    import dataiter as di
+    rec = {"L": L, "R": [], "a": {"kind": "split", "by": by}, "out": [], "cls": True, "err": "", "keys": [], "groups": []}
+    try:
+        out = di.ListOfDicts([to_py(x) for x in L]).split(*by)
+        rec["groups"] = [[int(i) for i in g] for g in out]
+    except Exception as e:
+        rec["err"] = type(e).__name__ + ": " + str(e)[:100]
+    return rec
+
+
 def sig_of(rec):
     a = rec["a"]
     return {"kind": a["kind"], "nby": len(a["by"]), "renamed": a.get("renamed", False), "after": a.get("after", ""),
@@ -140,6 +151,7 @@ def run(ctx):
         for by in (["k"], ["j"], ["k", "j"], ["j", "k"]):
             records.append(execute_agg(litems(l), by))
             records.append(execute_agg(litems(l), by, rng.randrange(10**6)))
+            records.append(execute_split(litems(l), by))
             count["aggregate"] = count.get("aggregate", 0) + 2
             ctx.count((json.dumps(l), "agg", tuple(by)), len(l["k"]) >= 2)
     bad = ctx.validate("LoDJoinTrace", records)
@@ -160,7 +172,9 @@ def run(ctx):
 def replay(ctx, rp):
     for case in rp["cases"]:
         rec0 = case["rec"]
-        if rec0["a"]["kind"] == "aggregate":
+        if rec0["a"]["kind"] == "split":
+            recs = [execute_split(rec0["L"], rec0["a"]["by"])]
+        elif rec0["a"]["kind"] == "aggregate":
             h = rec0.get("history")
             recs = [execute_agg(h["L0"], rec0["a"]["by"], h["seed"]) if h else execute_agg(rec0["L"], rec0["a"]["by"])]
         else:
